@@ -16,6 +16,18 @@
 //!
 //! `find_all_weighted_paths` on graphs with zero-weight cycles is run in a child process with an address
 //! space limit (its equal-cost parent lists can be cyclic; enumeration may not terminate).
+//!
+//! Second part ("history", counters hist.* / hist_*): the statement speaks of walks in the *current* graph,
+//! so the same battery of queries is also run on graphs that a random operation history left in the engine:
+//! on top of a generated graph 1-8 steps of delete_node / batch_delete_nodes (either endpoint role, directed
+//! and undirected, self-loops, parallel edges; now and then a temporary hub with ~100-130 incident edges so
+//! that delete_node's high-degree route runs), delete_edge / batch_delete_edges, update_edge (weight changed,
+//! removed, k changed), update_node / add_label / remove_label (colour and label changed together),
+//! create_node / batch_create_nodes, create_edge / batch_create_edges, and property indexes created midway.
+//! A small model follows the operations; the engine's read-back must list exactly what the model holds
+//! (otherwise the case is inconclusive: storing the graph is C05's subject), and every query is then judged
+//! on that read-back graph exactly as in the first part. A query that fails with EdgeNotFound / NodeNotFound
+//! for an id the current graph does not contain has its own signature.
 
 use common::*;
 use graph_engine::{
@@ -508,6 +520,8 @@ struct Built {
     g: GraphEngine,
     ids: Vec<u64>,
     rg: RG,
+    /// engine id of every edge of the spec, in spec order
+    edge_ids: Vec<u64>,
 }
 
 fn build(spec: &Spec) -> Result<Built, String> {
@@ -523,6 +537,7 @@ fn build_in(spec: &Spec, g: GraphEngine) -> Result<Built, String> {
         ids.push(g.create_node_with_labels(vec!["N".to_string(), format!("L{}", spec.color[i])], p).map_err(|e| format!("create_node: {}", e))?);
     }
     let mut expect: BTreeMap<u64, &ES> = BTreeMap::new();
+    let mut edge_ids = Vec::new();
     for e in &spec.edges {
         let mut p = HashMap::new();
         match &e.w {
@@ -537,8 +552,28 @@ fn build_in(spec: &Spec, g: GraphEngine) -> Result<Built, String> {
         p.insert("k".to_string(), PropertyValue::Int(e.k));
         let id = g.create_edge(ids[e.a], ids[e.b], TYPES[e.ty], p, e.directed).map_err(|x| format!("create_edge: {}", x))?;
         expect.insert(id, e);
+        edge_ids.push(id);
     }
     // read back: the oracle's graph is what the engine says it stores
+    let rg = read_back(&g);
+    let mut sorted_nodes = rg.nodes.clone();
+    sorted_nodes.sort_unstable();
+    let mut want = ids.clone();
+    want.sort_unstable();
+    if sorted_nodes != want || rg.edges.len() != expect.len() {
+        return Err(format!("read-back differs: {} nodes / {} edges stored, {} / {} created", rg.nodes.len(), rg.edges.len(), ids.len(), expect.len()));
+    }
+    for e in &rg.edges {
+        match expect.get(&e.id) {
+            Some(s) if ids[s.a] == e.from && ids[s.b] == e.to && s.directed == e.directed && TYPES[s.ty] == e.ty && s.w.eff().to_bits() == e.w.to_bits() && s.k == e.k => {}
+            other => return Err(format!("read-back differs for edge {}: stored {:?}, created {:?}", e.id, e, other)),
+        }
+    }
+    Ok(Built { g, ids, rg, edge_ids })
+}
+
+/// the graph as the engine lists it through all_nodes() / all_edges()
+fn read_back(g: &GraphEngine) -> RG {
     let mut rg = RG { nodes: g.all_nodes().iter().map(|n| n.id).collect(), color: HashMap::new(), edges: Vec::new(), by_id: HashMap::new() };
     for n in g.all_nodes() {
         if let Some(PropertyValue::Int(c)) = n.properties.get("c") {
@@ -558,20 +593,396 @@ fn build_in(spec: &Spec, g: GraphEngine) -> Result<Built, String> {
         rg.by_id.insert(e.id, rg.edges.len());
         rg.edges.push(RE { id: e.id, from: e.from, to: e.to, directed: e.directed, ty: e.edge_type.clone(), w, k });
     }
-    let mut sorted_nodes = rg.nodes.clone();
-    sorted_nodes.sort_unstable();
-    let mut want = ids.clone();
-    want.sort_unstable();
-    if sorted_nodes != want || rg.edges.len() != expect.len() {
-        return Err(format!("read-back differs: {} nodes / {} edges stored, {} / {} created", rg.nodes.len(), rg.edges.len(), ids.len(), expect.len()));
+    rg
+}
+
+// ------------------------------------------------------------------------------------------------
+// mutation histories: the "current graph" a query runs on is whatever a sequence of graph operations
+// left behind (deletions of nodes and edges, property / label updates, later creations, single and batch
+// entry points, property indexes created midway) — not only a freshly built one
+// ------------------------------------------------------------------------------------------------
+
+#[derive(Clone, Debug)]
+struct MEdge {
+    from: u64,
+    to: u64,
+    directed: bool,
+    ty: usize,
+    w: W,
+    k: i64,
+}
+
+/// what the operations applied so far imply (the engine's read-back must agree before anything is judged)
+struct Model {
+    nodes: BTreeMap<u64, i64>,
+    edges: BTreeMap<u64, MEdge>,
+}
+
+#[derive(Default)]
+struct HistInfo {
+    ops: Vec<String>,
+    counts: BTreeMap<&'static str, u64>,
+    /// endpoints that outlived an edge removed by delete_node / delete_edge
+    touched: BTreeSet<u64>,
+}
+impl HistInfo {
+    fn count(&mut self, k: &'static str, n: u64) {
+        *self.counts.entry(k).or_insert(0) += n;
     }
-    for e in &rg.edges {
-        match expect.get(&e.id) {
-            Some(s) if ids[s.a] == e.from && ids[s.b] == e.to && s.directed == e.directed && TYPES[s.ty] == e.ty && s.w.eff().to_bits() == e.w.to_bits() && s.k == e.k => {}
-            other => return Err(format!("read-back differs for edge {}: stored {:?}, created {:?}", e.id, e, other)),
+}
+
+fn node_labels(c: i64) -> Vec<String> {
+    vec!["N".to_string(), format!("L{}", c)]
+}
+fn node_props(c: i64) -> HashMap<String, PropertyValue> {
+    let mut p = HashMap::new();
+    p.insert("c".to_string(), PropertyValue::Int(c));
+    p
+}
+fn edge_props(w: &W, k: Option<i64>, null_for_missing: bool) -> HashMap<String, PropertyValue> {
+    let mut p = HashMap::new();
+    match w {
+        W::Missing => {
+            if null_for_missing {
+                p.insert("w".to_string(), PropertyValue::Null);
+            }
+        }
+        W::Int(i) => {
+            p.insert("w".to_string(), PropertyValue::Int(*i));
+        }
+        W::Float(f) => {
+            p.insert("w".to_string(), PropertyValue::Float(*f));
         }
     }
-    Ok(Built { g, ids, rg })
+    if let Some(k) = k {
+        p.insert("k".to_string(), PropertyValue::Int(k));
+    }
+    p
+}
+fn medge_show(id: u64, e: &MEdge) -> String {
+    format!("e{}:{}{}{}:{}:w={:?}:k={}", id, e.from, if e.directed { "->" } else { "--" }, e.to, TYPES[e.ty], e.w, e.k)
+}
+
+fn hist_create_edges(g: &GraphEngine, m: &mut Model, h: &mut HistInfo, list: Vec<MEdge>, batch: bool, log: bool) -> Result<Vec<u64>, String> {
+    let ids: Vec<u64> = if batch {
+        let inputs: Vec<graph_engine::EdgeInput> = list.iter().map(|e| graph_engine::EdgeInput::new(e.from, e.to, TYPES[e.ty], edge_props(&e.w, Some(e.k), false), e.directed)).collect();
+        let res = g.batch_create_edges(inputs).map_err(|e| format!("history: batch_create_edges failed: {}", e))?;
+        if res.created_ids.len() != list.len() {
+            return Err("history: batch_create_edges returned a different number of ids".into());
+        }
+        h.count("hist_op_batch_create_edges", 1);
+        res.created_ids
+    } else {
+        let mut v = Vec::new();
+        for e in &list {
+            v.push(g.create_edge(e.from, e.to, TYPES[e.ty], edge_props(&e.w, Some(e.k), false), e.directed).map_err(|x| format!("history: create_edge failed: {}", x))?);
+            h.count("hist_op_create_edge", 1);
+        }
+        v
+    };
+    for (id, e) in ids.iter().zip(list) {
+        if log {
+            h.ops.push(format!("{}({})", if batch { "batch_create_edges" } else { "create_edge" }, medge_show(*id, &e)));
+        }
+        if m.edges.insert(*id, e).is_some() {
+            return Err("history: an edge id was handed out twice".into());
+        }
+    }
+    Ok(ids)
+}
+
+fn hist_delete_nodes(g: &GraphEngine, m: &mut Model, h: &mut HistInfo, ids: &[u64], batch: bool) -> Result<(), String> {
+    if batch {
+        let res = g.batch_delete_nodes(ids.to_vec()).map_err(|e| format!("history: batch_delete_nodes failed: {}", e))?;
+        if !res.failed.is_empty() || res.deleted_ids.len() != ids.len() {
+            return Err(format!("history: batch_delete_nodes reported failures: {:?}", res.failed.iter().map(|f| f.cause.clone()).collect::<Vec<_>>()));
+        }
+        h.count("hist_op_batch_delete_nodes", 1);
+        h.ops.push(format!("batch_delete_nodes({:?})", ids));
+    }
+    for &id in ids {
+        if !batch {
+            g.delete_node(id).map_err(|e| format!("history: delete_node failed: {}", e))?;
+            h.ops.push(format!("delete_node({})", id));
+        }
+        let incident: Vec<u64> = m.edges.iter().filter(|(_, e)| e.from == id || e.to == id).map(|(&i, _)| i).collect();
+        h.count("hist_nodes_deleted", 1);
+        h.count(if incident.len() >= 100 { "hist_nodes_deleted_with_ge_100_edges" } else { "hist_nodes_deleted_with_lt_100_edges" }, 1);
+        for eid in incident {
+            let e = m.edges.remove(&eid).unwrap();
+            let what = match (e.from == e.to, e.from == id, e.directed) {
+                (true, _, _) => "hist_edges_removed_by_delete_node[self-loop]",
+                (_, true, true) => "hist_edges_removed_by_delete_node[node-is-from,directed]",
+                (_, true, false) => "hist_edges_removed_by_delete_node[node-is-from,undirected]",
+                (_, false, true) => "hist_edges_removed_by_delete_node[node-is-to,directed]",
+                (_, false, false) => "hist_edges_removed_by_delete_node[node-is-to,undirected]",
+            };
+            h.count(what, 1);
+            h.touched.insert(if e.from == id { e.to } else { e.from });
+        }
+        m.nodes.remove(&id);
+    }
+    Ok(())
+}
+
+fn hist_delete_edges(g: &GraphEngine, m: &mut Model, h: &mut HistInfo, ids: &[u64], batch: bool) -> Result<(), String> {
+    if batch {
+        let res = g.batch_delete_edges(ids.to_vec()).map_err(|e| format!("history: batch_delete_edges failed: {}", e))?;
+        if !res.failed.is_empty() || res.deleted_ids.len() != ids.len() {
+            return Err(format!("history: batch_delete_edges reported failures: {:?}", res.failed.iter().map(|f| f.cause.clone()).collect::<Vec<_>>()));
+        }
+        h.count("hist_op_batch_delete_edges", 1);
+        h.ops.push(format!("batch_delete_edges({:?})", ids));
+    }
+    for &id in ids {
+        if !batch {
+            g.delete_edge(id).map_err(|e| format!("history: delete_edge failed: {}", e))?;
+            h.ops.push(format!("delete_edge({})", id));
+        }
+        if let Some(e) = m.edges.remove(&id) {
+            h.count(if e.directed { "hist_edges_deleted[directed]" } else { "hist_edges_deleted[undirected]" }, 1);
+            h.touched.insert(e.from);
+            h.touched.insert(e.to);
+        }
+    }
+    Ok(())
+}
+
+fn gen_medge(hr: &mut Rng, m: &Model, live: &[u64], w_regime: usize) -> MEdge {
+    if !m.edges.is_empty() && hr.chance(1, 6) {
+        // parallel / anti-parallel to an existing edge
+        let ids: Vec<u64> = m.edges.keys().copied().collect();
+        let e = &m.edges[hr.pick(&ids)];
+        let flip = hr.bool();
+        return MEdge { from: if flip { e.to } else { e.from }, to: if flip { e.from } else { e.to }, directed: hr.bool(), ty: hr.below(3), w: gen_weight(hr, w_regime), k: hr.below(3) as i64 };
+    }
+    let a = *hr.pick(live);
+    let b = if hr.chance(1, 12) { a } else { *hr.pick(live) };
+    MEdge { from: a, to: b, directed: hr.bool(), ty: hr.below(3), w: gen_weight(hr, w_regime), k: hr.below(3) as i64 }
+}
+
+/// applies a random operation history to the engine and to the model
+fn apply_history(case_seed: u64, g: &GraphEngine, m: &mut Model, h: &mut HistInfo) -> Result<(), String> {
+    let mut hr = Rng::new(case_seed ^ 0x4849_5354_4F52_5921);
+    let steps = 1 + hr.below(8);
+    let index_at = if hr.chance(1, 4) { Some(hr.below(steps)) } else { None };
+    let hub_del_at = if hr.chance(1, 8) { Some(hr.below(steps)) } else { None };
+    let w_regime = hr.below(7);
+    let mut hub: Option<u64> = None;
+    if hub_del_at.is_some() {
+        // a temporary hub whose deletion takes delete_node's high-degree route (>= 100 incident edges; a few
+        // stay just below); it is always deleted again, so the judged graph stays small
+        let c = hr.below(3) as i64;
+        let hid = g.create_node_with_labels(node_labels(c), node_props(c)).map_err(|e| format!("history: create_node failed: {}", e))?;
+        let others: Vec<u64> = m.nodes.keys().copied().collect();
+        m.nodes.insert(hid, c);
+        let cnt = if hr.chance(1, 5) { 95 + hr.below(5) } else { 100 + hr.below(30) };
+        let dir_regime = hr.below(3);
+        let mut list = Vec::new();
+        for _ in 0..cnt {
+            let o = if hr.chance(1, 30) { hid } else { *hr.pick(&others) };
+            let (from, to) = if hr.bool() { (hid, o) } else { (o, hid) };
+            let directed = match dir_regime {
+                0 => true,
+                1 => false,
+                _ => hr.bool(),
+            };
+            list.push(MEdge { from, to, directed, ty: hr.below(3), w: gen_weight(&mut hr, w_regime), k: hr.below(3) as i64 });
+        }
+        let batch = hr.bool();
+        h.ops.push(format!("create node {} (c={}) and {} edges between it and the other nodes, {} (dir regime {})", hid, c, cnt, if batch { "one batch_create_edges" } else { "create_edge each" }, dir_regime));
+        hist_create_edges(g, m, h, list, batch, false)?;
+        hub = Some(hid);
+    }
+    for step in 0..steps {
+        if index_at == Some(step) {
+            g.create_node_property_index("c").map_err(|e| format!("history: create_node_property_index failed: {}", e))?;
+            g.create_edge_property_index("k").map_err(|e| format!("history: create_edge_property_index failed: {}", e))?;
+            h.ops.push("create_node_property_index(c), create_edge_property_index(k)".into());
+            h.count("hist_op_create_property_indexes", 1);
+        }
+        if hub_del_at == Some(step) {
+            if let Some(hid) = hub.take() {
+                hist_delete_nodes(g, m, h, &[hid], hr.chance(1, 3))?;
+            }
+        }
+        let live: Vec<u64> = m.nodes.keys().copied().filter(|x| Some(*x) != hub).collect();
+        let edge_ids: Vec<u64> = m.edges.keys().copied().collect();
+        match hr.weighted(&[25, 20, 15, 10, 10, 20]) {
+            0 => {
+                // delete one or two nodes (at least two ordinary nodes stay)
+                let want = if hr.chance(1, 4) { 2 } else { 1 };
+                let mut pick = live.clone();
+                hr.shuffle(&mut pick);
+                pick.truncate(want.min(live.len().saturating_sub(2)));
+                if !pick.is_empty() {
+                    let batch = pick.len() > 1 || hr.chance(1, 4);
+                    hist_delete_nodes(g, m, h, &pick, batch)?;
+                }
+            }
+            1 => {
+                let mut pick = edge_ids.clone();
+                hr.shuffle(&mut pick);
+                pick.truncate(1 + hr.below(3));
+                if !pick.is_empty() {
+                    let batch = pick.len() > 1 || hr.chance(1, 4);
+                    hist_delete_edges(g, m, h, &pick, batch)?;
+                }
+            }
+            2 => {
+                if !edge_ids.is_empty() {
+                    let id = *hr.pick(&edge_ids);
+                    let new_w = if hr.chance(2, 3) { Some(gen_weight(&mut hr, w_regime)) } else { None };
+                    let new_k = if new_w.is_none() || hr.bool() { Some(hr.below(3) as i64) } else { None };
+                    let mut p = match &new_w {
+                        Some(w) => edge_props(w, None, true),
+                        None => HashMap::new(),
+                    };
+                    if let Some(k) = new_k {
+                        p.insert("k".to_string(), PropertyValue::Int(k));
+                    }
+                    g.update_edge(id, p).map_err(|e| format!("history: update_edge failed: {}", e))?;
+                    let e = m.edges.get_mut(&id).unwrap();
+                    if let Some(w) = new_w {
+                        e.w = w;
+                    }
+                    if let Some(k) = new_k {
+                        e.k = k;
+                    }
+                    h.ops.push(format!("update_edge -> {}", medge_show(id, e)));
+                    h.count("hist_op_update_edge", 1);
+                }
+            }
+            3 => {
+                if !live.is_empty() {
+                    let id = *hr.pick(&live);
+                    let old = m.nodes[&id];
+                    let c = hr.below(3) as i64;
+                    if hr.bool() {
+                        g.update_node(id, Some(node_labels(c)), node_props(c)).map_err(|e| format!("history: update_node failed: {}", e))?;
+                        h.ops.push(format!("update_node({}, labels [N, L{}], c={})", id, c, c));
+                    } else {
+                        g.remove_label(id, &format!("L{}", old)).map_err(|e| format!("history: remove_label failed: {}", e))?;
+                        g.add_label(id, &format!("L{}", c)).map_err(|e| format!("history: add_label failed: {}", e))?;
+                        g.update_node(id, None, node_props(c)).map_err(|e| format!("history: update_node failed: {}", e))?;
+                        h.ops.push(format!("remove_label({}, L{}), add_label({}, L{}), update_node({}, c={})", id, old, id, c, id, c));
+                    }
+                    m.nodes.insert(id, c);
+                    h.count("hist_op_update_node", 1);
+                }
+            }
+            4 => {
+                let c = hr.below(3) as i64;
+                let id = if hr.bool() {
+                    g.create_node_with_labels(node_labels(c), node_props(c)).map_err(|e| format!("history: create_node failed: {}", e))?
+                } else {
+                    let res = g.batch_create_nodes(vec![graph_engine::NodeInput::new(node_labels(c), node_props(c))]).map_err(|e| format!("history: batch_create_nodes failed: {}", e))?;
+                    match res.created_ids.as_slice() {
+                        [id] => *id,
+                        _ => return Err("history: batch_create_nodes returned a different number of ids".into()),
+                    }
+                };
+                if m.nodes.insert(id, c).is_some() {
+                    return Err("history: a node id was handed out twice".into());
+                }
+                h.ops.push(format!("create node {} (c={})", id, c));
+                h.count("hist_op_create_node", 1);
+            }
+            _ => {
+                let all_live: Vec<u64> = m.nodes.keys().copied().collect();
+                let cnt = 1 + hr.below(3);
+                let list: Vec<MEdge> = (0..cnt).map(|_| gen_medge(&mut hr, m, &all_live, w_regime)).collect();
+                let list: Vec<MEdge> = list.into_iter().filter(|e| m.nodes.contains_key(&e.from) && m.nodes.contains_key(&e.to)).collect();
+                if !list.is_empty() {
+                    let batch = hr.bool();
+                    hist_create_edges(g, m, h, list, batch, true)?;
+                }
+            }
+        }
+    }
+    if let Some(hid) = hub.take() {
+        hist_delete_nodes(g, m, h, &[hid], false)?;
+    }
+    Ok(())
+}
+
+/// reads the engine back, insists that it lists exactly what the history implies, and re-expresses the
+/// current graph as a Spec (node i = i-th smallest node id) so that the rest of the case can work on it
+fn after_history(g: GraphEngine, m: &Model) -> Result<(Spec, Built), String> {
+    let rg = read_back(&g);
+    let mut listed: BTreeMap<u64, (Option<i64>, BTreeSet<String>)> = BTreeMap::new();
+    for n in g.all_nodes() {
+        let c = match n.properties.get("c") {
+            Some(PropertyValue::Int(c)) => Some(*c),
+            _ => None,
+        };
+        if listed.insert(n.id, (c, n.labels.iter().cloned().collect())).is_some() {
+            return Err("history: read-back lists a node twice".into());
+        }
+    }
+    let want_nodes: BTreeMap<u64, (Option<i64>, BTreeSet<String>)> = m.nodes.iter().map(|(&id, &c)| (id, (Some(c), node_labels(c).into_iter().collect()))).collect();
+    if listed != want_nodes {
+        return Err(format!("history: read-back nodes differ from the applied operations ({} listed, {} expected)", listed.len(), want_nodes.len()));
+    }
+    if rg.edges.len() != m.edges.len() || rg.by_id.len() != m.edges.len() {
+        return Err(format!("history: read-back lists {} edges, the applied operations leave {}", rg.edges.len(), m.edges.len()));
+    }
+    for e in &rg.edges {
+        match m.edges.get(&e.id) {
+            Some(s) if s.from == e.from && s.to == e.to && s.directed == e.directed && TYPES[s.ty] == e.ty && s.w.eff().to_bits() == e.w.to_bits() && s.k == e.k => {}
+            _ => return Err("history: a read-back edge differs from the applied operations".into()),
+        }
+    }
+    let ids: Vec<u64> = m.nodes.keys().copied().collect();
+    let idx: HashMap<u64, usize> = ids.iter().enumerate().map(|(i, &id)| (id, i)).collect();
+    let spec = Spec {
+        n: ids.len(),
+        color: ids.iter().map(|id| m.nodes[id]).collect(),
+        edges: m.edges.values().map(|e| ES { a: idx[&e.from], b: idx[&e.to], directed: e.directed, ty: e.ty, w: e.w.clone(), k: e.k }).collect(),
+    };
+    let edge_ids = m.edges.keys().copied().collect();
+    Ok((spec, Built { g, ids, rg, edge_ids }))
+}
+
+/// the engine a case works on: the generated graph, or (hist) what an operation history made of it
+fn make_case(case_seed: u64, hist: bool, engine: GraphEngine) -> Result<(Spec, Built, Option<HistInfo>, Rng), String> {
+    let mut rng = Rng::new(case_seed);
+    let spec0 = gen_spec(&mut rng);
+    let bt0 = build_in(&spec0, engine)?;
+    if !hist {
+        return Ok((spec0, bt0, None, rng));
+    }
+    let mut m = Model { nodes: BTreeMap::new(), edges: BTreeMap::new() };
+    for (i, &id) in bt0.ids.iter().enumerate() {
+        m.nodes.insert(id, spec0.color[i]);
+    }
+    for (e, &id) in spec0.edges.iter().zip(&bt0.edge_ids) {
+        m.edges.insert(id, MEdge { from: bt0.ids[e.a], to: bt0.ids[e.b], directed: e.directed, ty: e.ty, w: e.w.clone(), k: e.k });
+    }
+    let mut h = HistInfo::default();
+    h.ops.push(if spec0.edges.len() <= 40 { format!("generated graph (node i has id i, edge ej has id j): {}", spec_json(&spec0)) } else { format!("generated graph: {} nodes / {} edges (replay to see)", spec0.n, spec0.edges.len()) });
+    apply_history(case_seed, &bt0.g, &mut m, &mut h)?;
+    h.touched.retain(|v| m.nodes.contains_key(v));
+    let (spec, bt) = after_history(bt0.g, &m)?;
+    Ok((spec, bt, Some(h), rng))
+}
+
+fn current_graph_json(rg: &RG) -> Value {
+    let mut nodes: Vec<u64> = rg.nodes.clone();
+    nodes.sort_unstable();
+    json!({
+        "nodes": nodes.iter().map(|n| format!("{}(c={})", n, rg.color.get(n).copied().unwrap_or(-1))).collect::<Vec<_>>(),
+        "edges": rg.edges.iter().map(|e| format!("e{}:{}{}{}:{}:w={}:k={}", e.id, e.from, if e.directed { "->" } else { "--" }, e.to, e.ty, e.w, e.k)).collect::<Vec<_>>(),
+    })
+}
+
+/// a query that fails on an id the current graph does not contain is its own failure class
+fn err_sig(api: &str, e: &GraphError, rg: &RG) -> String {
+    match e {
+        GraphError::EdgeNotFound(id) if rg.edge(*id).is_none() => format!("{}:fails-with-EdgeNotFound-for-an-edge-absent-from-the-current-graph", api),
+        GraphError::NodeNotFound(id) if !rg.nodes.contains(id) => format!("{}:fails-with-NodeNotFound-for-a-node-absent-from-the-current-graph", api),
+        _ => format!("{}:unexpected-error", api),
+    }
 }
 
 // ------------------------------------------------------------------------------------------------
@@ -647,14 +1058,21 @@ fn walk_sig(api: &str, e: &WalkErr) -> String {
 struct Ctx<'a> {
     case_seed: u64,
     spec: &'a Spec,
+    /// history cases: the operations applied and the graph they left (ids as the engine uses them)
+    hist_desc: Option<String>,
     sigs: BTreeSet<String>,
     r: &'a mut Report,
 }
 impl<'a> Ctx<'a> {
     fn violate(&mut self, sig: String, detail: String) {
         if self.sigs.insert(sig.clone()) {
-            let g = if self.spec.edges.len() <= 40 { spec_json(self.spec).to_string() } else { format!("{} nodes / {} edges (replay to see)", self.spec.n, self.spec.edges.len()) };
-            self.r.violation(sig, format!("{} — graph (node i has id i, edge ej has id j): {}", detail, g), json!({"part": "graph", "case_seed": self.case_seed}));
+            match &self.hist_desc {
+                None => {
+                    let g = if self.spec.edges.len() <= 40 { spec_json(self.spec).to_string() } else { format!("{} nodes / {} edges (replay to see)", self.spec.n, self.spec.edges.len()) };
+                    self.r.violation(sig, format!("{} — graph (node i has id i, edge ej has id j): {}", detail, g), json!({"part": "graph", "case_seed": self.case_seed}));
+                }
+                Some(d) => self.r.violation(sig, format!("{} — {}", detail, d), json!({"part": "history", "case_seed": self.case_seed})),
+            }
         }
     }
 }
@@ -696,11 +1114,15 @@ fn has_zero_cycle_risk(rg: &RG) -> bool {
 }
 
 fn graph_case(case_seed: u64, r: &mut Report, exe: &std::path::Path) {
-    let mut rng = Rng::new(case_seed);
-    let spec = gen_spec(&mut rng);
+    graph_case_mode(case_seed, r, exe, false)
+}
+
+/// hist = false: the generated graph in a fresh engine; hist = true: the same battery of queries on the
+/// graph that a random operation history (see apply_history) left in the engine
+fn graph_case_mode(case_seed: u64, r: &mut Report, exe: &std::path::Path, hist: bool) {
     let mut lap_t = Instant::now();
-    let bt = match build(&spec) {
-        Ok(b) => b,
+    let (spec, bt, hinfo, mut rng) = match make_case(case_seed, hist, GraphEngine::new()) {
+        Ok(x) => x,
         Err(e) => {
             // storing/listing the graph is C05's subject; without a trusted edge list nothing can be judged here
             r.inconclusive(&format!("graph build/read-back failed: {}", first_line(&e)));
@@ -709,7 +1131,13 @@ fn graph_case(case_seed: u64, r: &mut Report, exe: &std::path::Path) {
     };
     let (g, ids, rg) = (&bt.g, &bt.ids, &bt.rg);
     let n = spec.n;
-    let mut cx = Ctx { case_seed, spec: &spec, sigs: BTreeSet::new(), r };
+    let hist_desc = hinfo.as_ref().map(|h| {
+        let cur = if rg.edges.len() <= 60 { current_graph_json(rg).to_string() } else { format!("{} nodes / {} edges (replay to see)", rg.nodes.len(), rg.edges.len()) };
+        format!("operation history: {}; current graph (ids as the engine uses them): {}", h.ops.join("; "), cur)
+    });
+    let touched: BTreeSet<u64> = hinfo.as_ref().map(|h| h.touched.clone()).unwrap_or_default();
+    let mut from_touched = 0u64;
+    let mut cx = Ctx { case_seed, spec: &spec, hist_desc, sigs: BTreeSet::new(), r };
     let all = |_: &RE| true;
     let any_node = |_: u64| true;
     let arcs_out = rg.arcs(Direction::Outgoing, &all);
@@ -738,6 +1166,9 @@ fn graph_case(case_seed: u64, r: &mut Report, exe: &std::path::Path) {
         let (from, to) = (ids[a], ids[b]);
         let hops = bfs_cache.entry(from).or_insert_with(|| bfs_dist(&arcs_out, from, &any_node)).get(&to).copied();
         let wdist = bf_cache.entry(from).or_insert_with(|| bellman_ford(&arcs_out, &rg.nodes, from)).get(&to).copied();
+        if touched.contains(&from) && a != b {
+            from_touched += 1;
+        }
         if hops.is_some() && a != b {
             reachable_pairs += 1;
             if hops.unwrap() >= 2 {
@@ -760,7 +1191,7 @@ fn graph_case(case_seed: u64, r: &mut Report, exe: &std::path::Path) {
                     cx.violate("find_path:path-not-found-but-one-exists".into(), format!("find_path({},{}) = PathNotFound, reference finds a {}-hop path", from, to, h));
                 }
             }
-            Err(e) => cx.violate("find_path:unexpected-error".into(), format!("find_path({},{}) = Err({})", from, to, e)),
+            Err(e) => cx.violate(err_sig("find_path", &e, rg), format!("find_path({},{}) = Err({})", from, to, e)),
         }
         // ---- find_weighted_path
         cx.r.count("q_find_weighted_path", 1);
@@ -780,7 +1211,7 @@ fn graph_case(case_seed: u64, r: &mut Report, exe: &std::path::Path) {
                     cx.violate("find_weighted_path:path-not-found-but-one-exists".into(), format!("find_weighted_path({},{}) = PathNotFound, reference distance {:?}", from, to, wdist));
                 }
             }
-            Err(e) => cx.violate("find_weighted_path:unexpected-error".into(), format!("find_weighted_path({},{}) = Err({})", from, to, e)),
+            Err(e) => cx.violate(err_sig("find_weighted_path", &e, rg), format!("find_weighted_path({},{}) = Err({})", from, to, e)),
         }
         // ---- find_all_paths
         cx.r.count("q_find_all_paths", 1);
@@ -824,7 +1255,7 @@ fn graph_case(case_seed: u64, r: &mut Report, exe: &std::path::Path) {
                     cx.violate("find_all_paths:path-not-found-but-one-exists".into(), format!("find_all_paths({},{}) = PathNotFound, reference BFS {:?}", from, to, hops));
                 }
             }
-            Err(e) => cx.violate("find_all_paths:unexpected-error".into(), format!("find_all_paths({},{}) = Err({})", from, to, e)),
+            Err(e) => cx.violate(err_sig("find_all_paths", &e, rg), format!("find_all_paths({},{}) = Err({})", from, to, e)),
         }
         // ---- find_all_weighted_paths (in-process only when no zero-weight step exists)
         if !zero_risk {
@@ -854,7 +1285,7 @@ fn graph_case(case_seed: u64, r: &mut Report, exe: &std::path::Path) {
                         cx.violate("find_all_weighted_paths:path-not-found-but-one-exists".into(), format!("find_all_weighted_paths({},{}) = PathNotFound, reference {:?}", from, to, wdist));
                     }
                 }
-                Err(e) => cx.violate("find_all_weighted_paths:unexpected-error".into(), format!("find_all_weighted_paths({},{}) = Err({})", from, to, e)),
+                Err(e) => cx.violate(err_sig("find_all_weighted_paths", &e, rg), format!("find_all_weighted_paths({},{}) = Err({})", from, to, e)),
             }
         }
         // ---- astar_path, default (zero) heuristic
@@ -907,7 +1338,7 @@ fn graph_case(case_seed: u64, r: &mut Report, exe: &std::path::Path) {
                     );
                 }
             }
-            Err(e) => cx.violate("astar_path:unexpected-error".into(), format!("astar_path({},{}) = Err({})", from, to, e)),
+            Err(e) => cx.violate(err_sig("astar_path", &e, rg), format!("astar_path({},{}) = Err({})", from, to, e)),
         }
     }
 
@@ -951,7 +1382,7 @@ fn graph_case(case_seed: u64, r: &mut Report, exe: &std::path::Path) {
                         cx.violate("find_path:path-not-found-but-one-exists".into(), format!("{} = PathNotFound, reference {:?}", what, hops));
                     }
                 }
-                Err(e) => cx.violate("find_path:unexpected-error".into(), format!("{} = Err({})", what, e)),
+                Err(e) => cx.violate(err_sig("find_path", &e, rg), format!("{} = Err({})", what, e)),
             }
         }
     }
@@ -980,7 +1411,7 @@ fn graph_case(case_seed: u64, r: &mut Report, exe: &std::path::Path) {
                     cx.violate("traverse:node-set-differs".into(), format!("traverse({}, {}, depth {}, type {:?}, edge k!={} [{}]) = {:?}, reference BFS within {} hops {:?}", start, dname(dir), depth, ty, kk, use_edge, got, depth, want));
                 }
             }
-            Err(e) => cx.violate("traverse:unexpected-error".into(), format!("traverse({}) = Err({})", start, e)),
+            Err(e) => cx.violate(err_sig("traverse", &e, rg), format!("traverse({}) = Err({})", start, e)),
         }
         let want1: BTreeSet<u64> = arcs.iter().filter(|(a, _)| a.u == start && a.v != start).map(|(a, _)| a.v).collect();
         cx.r.count("q_neighbors", 1);
@@ -992,7 +1423,7 @@ fn graph_case(case_seed: u64, r: &mut Report, exe: &std::path::Path) {
                     cx.violate("neighbors:set-differs".into(), format!("neighbors({}, {:?}, {}, edge k!={} [{}]) = {:?}, edge list implies {:?}", start, ty, dname(dir), kk, use_edge, got, want1));
                 }
             }
-            Err(e) => cx.violate("neighbors:unexpected-error".into(), format!("neighbors({}) = Err({})", start, e)),
+            Err(e) => cx.violate(err_sig("neighbors", &e, rg), format!("neighbors({}) = Err({})", start, e)),
         }
     }
 
@@ -1075,7 +1506,7 @@ fn graph_case(case_seed: u64, r: &mut Report, exe: &std::path::Path) {
                     cx.violate(sig.into(), format!("{} returns {} distinct paths, reference enumerates {}: missing {:?}, extra {:?}", what, got.len(), want.len(), missing, extra));
                 }
             }
-            Err(e) => cx.violate("find_variable_paths:unexpected-error".into(), format!("{} = Err({})", what, e)),
+            Err(e) => cx.violate(err_sig("find_variable_paths", &e, rg), format!("{} = Err({})", what, e)),
         }
     }
 
@@ -1113,7 +1544,7 @@ fn graph_case(case_seed: u64, r: &mut Report, exe: &std::path::Path) {
                     }
                 }
             }
-            Err(e) => cx.violate("scc:unexpected-error".into(), format!("strongly_connected_components = Err({})", e)),
+            Err(e) => cx.violate(err_sig("scc", &e, rg), format!("strongly_connected_components = Err({})", e)),
         }
         // simple undirected view
         let adj = simple_adj(rg, &pred);
@@ -1133,7 +1564,7 @@ fn graph_case(case_seed: u64, r: &mut Report, exe: &std::path::Path) {
                         cx.violate("connected_components:partition-differs".into(), format!("connected_components({}) = {:?}, reference {:?}", tag, got, want_cc));
                     }
                 }
-                Err(e) => cx.violate("connected_components:unexpected-error".into(), format!("Err({})", e)),
+                Err(e) => cx.violate(err_sig("connected_components", &e, rg), format!("Err({})", e)),
             }
         }
         // k-core
@@ -1150,7 +1581,7 @@ fn graph_case(case_seed: u64, r: &mut Report, exe: &std::path::Path) {
                     cx.violate("kcore:core-numbers-differ".into(), format!("kcore_decomposition({}) = {:?} degeneracy {}, peeling reference {:?}", tag, got, res.degeneracy, want_core));
                 }
             }
-            Err(e) => cx.violate("kcore:unexpected-error".into(), format!("Err({})", e)),
+            Err(e) => cx.violate(err_sig("kcore", &e, rg), format!("Err({})", e)),
         }
         // triangles
         let nodes_sorted: Vec<u64> = adj.keys().copied().collect();
@@ -1192,7 +1623,7 @@ fn graph_case(case_seed: u64, r: &mut Report, exe: &std::path::Path) {
                     }
                 }
             }
-            Err(e) => cx.violate("count_triangles:unexpected-error".into(), format!("Err({})", e)),
+            Err(e) => cx.violate(err_sig("count_triangles", &e, rg), format!("Err({})", e)),
         }
         if n > 0 {
             let v = ids[rng.below(n)];
@@ -1211,7 +1642,7 @@ fn graph_case(case_seed: u64, r: &mut Report, exe: &std::path::Path) {
             match g.local_clustering_coefficient(v, &cfg) {
                 Ok(x) if close(x, want) => {}
                 Ok(x) => cx.violate("local_clustering_coefficient:differs".into(), format!("local_clustering_coefficient({}, undirected, {}) = {}, reference {} ({} links among {} neighbours)", v, tag, x, want, links, d)),
-                Err(e) => cx.violate("local_clustering_coefficient:unexpected-error".into(), format!("Err({})", e)),
+                Err(e) => cx.violate(err_sig("local_clustering_coefficient", &e, rg), format!("Err({})", e)),
             }
         }
         // articulation points, bridges, blocks
@@ -1257,7 +1688,7 @@ fn graph_case(case_seed: u64, r: &mut Report, exe: &std::path::Path) {
                     }
                 }
             }
-            Err(e) => cx.violate("biconnected:unexpected-error".into(), format!("Err({})", e)),
+            Err(e) => cx.violate(err_sig("biconnected", &e, rg), format!("Err({})", e)),
         }
         // MST (no edge-type switch in MstConfig: whole graph only)
         if round == 0 {
@@ -1344,7 +1775,7 @@ fn graph_case(case_seed: u64, r: &mut Report, exe: &std::path::Path) {
                         );
                     }
                 }
-                Err(e) => cx.violate("mst:unexpected-error".into(), format!("Err({})", e)),
+                Err(e) => cx.violate(err_sig("mst", &e, rg), format!("Err({})", e)),
             }
         }
     }
@@ -1357,7 +1788,7 @@ fn graph_case(case_seed: u64, r: &mut Report, exe: &std::path::Path) {
     pattern_queries(&mut cx, g, rg, &mut rng, 4, dense, false);
     if n >= 3 && rng.chance(1, 4) {
         // same graph in an engine that scans start candidates in parallel (threshold 2 instead of 100)
-        match build_in(&spec, GraphEngine::with_config(GraphEngineConfig::new().pattern_parallel_threshold(2))) {
+        match make_case(case_seed, hist, GraphEngine::with_config(GraphEngineConfig::new().pattern_parallel_threshold(2))).map(|x| x.1) {
             Ok(bp) if bp.ids == *ids && bp.rg.edges.iter().map(|e| e.id).eq(rg.edges.iter().map(|e| e.id)) => pattern_queries(&mut cx, &bp.g, rg, &mut rng, 2, dense, true),
             _ => cx.r.inconclusive("second engine (parallel pattern scan) could not be built identically"),
         }
@@ -1367,7 +1798,7 @@ fn graph_case(case_seed: u64, r: &mut Report, exe: &std::path::Path) {
     // ---------------- find_all_weighted_paths with zero-weight steps: child process
     if zero_risk && rng.chance(1, 6) && reachable_pairs > 0 {
         let (a, b) = pairs[rng.below(pairs.len())];
-        run_fawp_child(&mut cx, exe, case_seed, a, b, ids, &arcs_out, rg);
+        run_fawp_child(&mut cx, exe, case_seed, hist, a, b, ids, &arcs_out, rg);
     }
 
     cx.r.count("time_us_child", lap_t.elapsed().as_micros() as u64);
@@ -1387,9 +1818,28 @@ fn graph_case(case_seed: u64, r: &mut Report, exe: &std::path::Path) {
     r.count("graphs_with_undirected_edges", spec.edges.iter().any(|e| !e.directed) as u64);
     r.count("graphs_with_zero_weights", zero_risk as u64);
     r.count("graphs_with_triangles", triangle as u64);
-    r.eval(spec_hash(&spec), n >= 3 && spec.edges.len() >= 2 && far_pairs > 0);
-    if sigs_empty && r.want_sample() && n >= 4 && n <= 7 && far_pairs > 0 {
-        r.sample(json!({"part": "graph", "case_seed": case_seed, "graph": spec_json(&spec), "pairs": pairs.len(), "reachable_pairs": reachable_pairs}));
+    match &hinfo {
+        None => {
+            r.eval(spec_hash(&spec), n >= 3 && spec.edges.len() >= 2 && far_pairs > 0);
+            if sigs_empty && r.want_sample() && n >= 4 && n <= 7 && far_pairs > 0 {
+                r.sample(json!({"part": "graph", "case_seed": case_seed, "graph": spec_json(&spec), "pairs": pairs.len(), "reachable_pairs": reachable_pairs}));
+            }
+        }
+        Some(h) => {
+            for (k, v) in &h.counts {
+                r.count(k, *v);
+            }
+            let removed = h.counts.iter().any(|(k, v)| *v > 0 && (k.starts_with("hist_edges_removed_by_delete_node") || k.starts_with("hist_edges_deleted") || *k == "hist_nodes_deleted"));
+            r.count("hist_graphs_judged", 1);
+            r.count("hist_ops", h.ops.len() as u64 - 1);
+            r.count("hist_graphs_with_touched_survivors", !touched.is_empty() as u64);
+            r.count("hist_pair_queries_starting_at_a_node_that_lost_an_edge", from_touched);
+            let hh = h.ops.iter().skip(1).fold(spec_hash(&spec), |acc, o| hash_combine(acc, hash_str(o)));
+            r.eval(hh, removed && n >= 3 && spec.edges.len() >= 2 && far_pairs > 0);
+            if sigs_empty && r.want_sample() && n >= 4 && n <= 7 && far_pairs > 0 && !touched.is_empty() && spec.edges.len() <= 14 {
+                r.sample(json!({"part": "history", "case_seed": case_seed, "history": h.ops, "current_graph": current_graph_json(rg), "pairs": pairs.len(), "reachable_pairs": reachable_pairs}));
+            }
+        }
     }
 }
 
@@ -1632,7 +2082,7 @@ fn pattern_queries(cx: &mut Ctx, g: &GraphEngine, rg: &RG, rng: &mut Rng, querie
         let res = match res {
             Ok(r) => r,
             Err(e) => {
-                cx.violate("match_pattern:unexpected-error".into(), format!("{} = Err({})", what, e));
+                cx.violate(err_sig("match_pattern", &e, rg), format!("{} = Err({})", what, e));
                 continue;
             }
         };
@@ -1742,11 +2192,11 @@ fn has_triangle(rg: &RG) -> bool {
 // child process for find_all_weighted_paths on graphs with zero-weight steps
 // ------------------------------------------------------------------------------------------------
 
-fn run_fawp_child(cx: &mut Ctx, exe: &std::path::Path, case_seed: u64, a: usize, b: usize, ids: &[u64], arcs_out: &[(Arc, f64)], rg: &RG) {
+fn run_fawp_child(cx: &mut Ctx, exe: &std::path::Path, case_seed: u64, hist: bool, a: usize, b: usize, ids: &[u64], arcs_out: &[(Arc, f64)], rg: &RG) {
     use std::process::{Command, Stdio};
     let (from, to) = (ids[a], ids[b]);
     let want = bellman_ford(arcs_out, &rg.nodes, from).get(&to).copied();
-    let script = format!("ulimit -v 1500000; exec \"{}\" child-fawp {} {} {}", exe.display(), case_seed, a, b);
+    let script = format!("ulimit -v 1500000; exec \"{}\" child-fawp {} {} {} {}", exe.display(), case_seed, a, b, hist as u8);
     let mut child = match Command::new("sh").arg("-c").arg(&script).stdout(Stdio::piped()).stderr(Stdio::null()).spawn() {
         Ok(c) => c,
         Err(_) => {
@@ -1788,6 +2238,21 @@ fn run_fawp_child(cx: &mut Ctx, exe: &std::path::Path, case_seed: u64, a: usize,
         return;
     }
     let v: Value = serde_json::from_str(out.trim()).unwrap_or(Value::Null);
+    if let Some(err) = v["error"].as_str() {
+        if err == "build" {
+            cx.r.inconclusive("find_all_weighted_paths child could not rebuild the case");
+        } else {
+            let id = v["not_found_id"].as_u64().unwrap_or(0);
+            let as_err = match v["not_found_kind"].as_str() {
+                Some("edge") => GraphError::EdgeNotFound(id),
+                Some("node") => GraphError::NodeNotFound(id),
+                _ => GraphError::PathNotFound,
+            };
+            let sig = if matches!(as_err, GraphError::PathNotFound) { "find_all_weighted_paths:unexpected-error".to_string() } else { err_sig("find_all_weighted_paths", &as_err, rg) };
+            cx.violate(sig, format!("find_all_weighted_paths({},{}) (zero-weight graph, child process) = Err({}), reference {:?}", from, to, err, want));
+        }
+        return;
+    }
     match (v["total"].as_f64(), v["not_found"].as_bool(), want) {
         (Some(t), _, Some(w)) if close(t, w) => {
             // listed paths must be walks of that weight (they need not be simple when zero cycles exist)
@@ -1808,17 +2273,26 @@ fn run_fawp_child(cx: &mut Ctx, exe: &std::path::Path, case_seed: u64, a: usize,
     }
 }
 
-fn child_fawp(case_seed: u64, a: usize, b: usize) {
-    let mut rng = Rng::new(case_seed);
-    let spec = gen_spec(&mut rng);
-    let Ok(bt) = build(&spec) else {
+fn child_fawp(case_seed: u64, a: usize, b: usize, hist: bool) {
+    let Ok((_, bt, _, _)) = make_case(case_seed, hist, GraphEngine::new()) else {
         println!("{}", json!({"error": "build"}));
         return;
     };
+    if a >= bt.ids.len() || b >= bt.ids.len() {
+        println!("{}", json!({"error": "build"}));
+        return;
+    }
     match bt.g.find_all_weighted_paths(bt.ids[a], bt.ids[b], "w", None) {
         Ok(ap) => println!("{}", json!({"total": ap.total_weight, "paths": ap.paths.iter().take(200).map(|p| json!({"n": p.nodes, "e": p.edges})).collect::<Vec<_>>()})),
         Err(GraphError::PathNotFound) => println!("{}", json!({"not_found": true})),
-        Err(e) => println!("{}", json!({"error": e.to_string()})),
+        Err(e) => {
+            let (kind, id) = match &e {
+                GraphError::EdgeNotFound(id) => ("edge", *id),
+                GraphError::NodeNotFound(id) => ("node", *id),
+                _ => ("other", 0),
+            };
+            println!("{}", json!({"error": e.to_string(), "not_found_kind": kind, "not_found_id": id}))
+        }
     }
 }
 
@@ -1881,7 +2355,7 @@ fn main() {
     quiet_panics();
     if args.rest.first().map(|s| s.as_str()) == Some("child-fawp") {
         let p = |i: usize| args.rest.get(i).and_then(|s| s.parse::<u64>().ok()).unwrap_or(0);
-        child_fawp(p(1), p(2) as usize, p(3) as usize);
+        child_fawp(p(1), p(2) as usize, p(3) as usize, p(4) == 1);
         return;
     }
     match args.rest.first().map(|s| s.as_str()) {
@@ -1897,19 +2371,53 @@ fn main() {
     if let Some(p) = &args.replay {
         let v: Value = serde_json::from_str(&std::fs::read_to_string(p).expect("replay file")).expect("json");
         let rp = if v.get("replay").is_some() { v["replay"].clone() } else { v.clone() };
-        graph_case(rp["case_seed"].as_u64().unwrap_or(1), &mut total, &exe);
+        graph_case_mode(rp["case_seed"].as_u64().unwrap_or(1), &mut total, &exe, rp["part"].as_str() == Some("history"));
         let meta = Meta { property: "C18", rule: "replay", assumptions: vec![], floors: vec![], exhaustive: false };
         write_result(&args, &meta, &total, started);
         return;
     }
 
-    let n = args.by_tier(8_000u64, 400_000u64);
-    let rep = par_cases(args.threads, args.seed ^ 0xC18, n, args.budget(45, 600), |_i, s, r| graph_case(s, r, &exe));
+    // `--part graph|history` runs one part alone (development aid; the floors of the other part are dropped)
+    let only = args.extra.get("part").cloned();
+    let run_graph = only.as_deref() != Some("history");
+    let run_hist = only.as_deref() != Some("graph");
+    if run_graph {
+        let n = args.by_tier(8_000u64, 400_000u64);
+        let rep = par_cases(args.threads, args.seed ^ 0xC18, n, args.budget(45, 600), |_i, s, r| graph_case(s, r, &exe));
+        total.merge(rep);
+    }
+
+    // the same battery on graphs that an operation history left behind (counters of this part carry the
+    // prefix hist. / hist_ so that the floors of the first part are not met by it)
+    let n_hist = if run_hist { args.by_tier(2_000u64, 150_000u64) } else { 0 };
+    let mut rep = par_cases(args.threads, args.seed ^ 0xC18_415, n_hist, args.budget(30, 300), |_i, s, r| graph_case_mode(s, r, &exe, true));
+    let old = std::mem::take(&mut rep.counters);
+    for (k, v) in old {
+        let nk = if k.starts_with("hist_") {
+            k
+        } else if let Some(rest) = k.strip_prefix("max:") {
+            format!("max:hist.{}", rest)
+        } else {
+            format!("hist.{}", k)
+        };
+        rep.counters.insert(nk, v);
+    }
     total.merge(rep);
 
+    let mut floors: Vec<(&'static str, u64)> = Vec::new();
+    if run_graph {
+        floors.extend([("graphs", 300), ("reachable_pairs", 2_000), ("pairs_at_distance_ge_2", 500), ("q_find_variable_paths", 300), ("q_scc", 300), ("graphs_with_parallel_edges", 50), ("graphs_with_undirected_edges", 50),
+            ("q_match_pattern", 1_500), ("q_match_var_maxhops_ge2", 500), ("q_match_three_node_patterns", 200), ("q_match_pattern_parallel_scan", 100), ("match_paths_checked", 20_000), ("graphs_with_triangles", 100)]);
+    }
+    if run_hist {
+        floors.extend([("hist_graphs_judged", 200), ("hist.reachable_pairs", 1_000), ("hist.q_find_weighted_path", 3_000), ("hist_nodes_deleted_with_lt_100_edges", 150), ("hist_nodes_deleted_with_ge_100_edges", 8),
+            ("hist_edges_removed_by_delete_node[node-is-to,undirected]", 100), ("hist_edges_removed_by_delete_node[node-is-from,undirected]", 100), ("hist_edges_removed_by_delete_node[node-is-to,directed]", 100),
+            ("hist_edges_removed_by_delete_node[node-is-from,directed]", 100), ("hist_edges_deleted[undirected]", 50), ("hist_edges_deleted[directed]", 50), ("hist_op_update_edge", 50), ("hist_op_update_node", 50),
+            ("hist_op_batch_create_edges", 40), ("hist_pair_queries_starting_at_a_node_that_lost_an_edge", 1_500), ("hist.q_match_pattern", 500)]);
+    }
     let meta = Meta {
         property: "C18",
-        rule: "one case = one random multigraph (2-40 nodes; directed / undirected / mixed; self-loops, parallel and anti-parallel edges; weights missing / equal / zero-heavy / small ints / floats / 1e9-1e12; 1-3 edge types; optional disconnected clusters) built in a fresh engine and read back; all ordered pairs (<=8 nodes) or 28 sampled pairs get find_path, find_weighted_path, find_all_paths, find_all_weighted_paths and astar_path judged against BFS / Bellman-Ford / exhaustive enumeration over the read-back edge list; plus filtered find_path, traverse, neighbors, find_variable_paths (hop bounds, directions, type sets, filters, cycles) against exhaustive enumeration; 4 (+2 on a parallel-scan engine for a quarter of the graphs) random path patterns through match_pattern / match_simple (fixed and *min..max edge patterns, 2- and 3-node paths, three directions, edge type / property and node label / property filters) compared as sets of bound (node sequence, edge sequence) tuples with an exhaustive enumeration, plus count_pattern_matches / pattern_exists; SCC+condensation, weak components, k-core, triangles, clustering, articulation points, bridges, blocks, MST against brute-force references. Distinct by the hash of the generated graph; non-trivial if the graph has >=3 nodes, >=2 edges and a queried pair at reference distance >=2.",
+        rule: "one case = one random multigraph (2-40 nodes; directed / undirected / mixed; self-loops, parallel and anti-parallel edges; weights missing / equal / zero-heavy / small ints / floats / 1e9-1e12; 1-3 edge types; optional disconnected clusters) built in a fresh engine and read back; all ordered pairs (<=8 nodes) or 28 sampled pairs get find_path, find_weighted_path, find_all_paths, find_all_weighted_paths and astar_path judged against BFS / Bellman-Ford / exhaustive enumeration over the read-back edge list; plus filtered find_path, traverse, neighbors, find_variable_paths (hop bounds, directions, type sets, filters, cycles) against exhaustive enumeration; 4 (+2 on a parallel-scan engine for a quarter of the graphs) random path patterns through match_pattern / match_simple (fixed and *min..max edge patterns, 2- and 3-node paths, three directions, edge type / property and node label / property filters) compared as sets of bound (node sequence, edge sequence) tuples with an exhaustive enumeration, plus count_pattern_matches / pattern_exists; SCC+condensation, weak components, k-core, triangles, clustering, articulation points, bridges, blocks, MST against brute-force references. Distinct by the hash of the generated graph; non-trivial if the graph has >=3 nodes, >=2 edges and a queried pair at reference distance >=2. Part 2 (history, counters hist.* / hist_*): the same battery on the graph that a random operation history left in the engine (generated graph, then 1-8 steps of delete_node / batch_delete_nodes incl. a temporary hub of ~100-130 incident edges for delete_node's high-degree route, delete_edge / batch_delete_edges, update_edge of weight / k, update_node / add_label / remove_label, create_node / create_edge and their batch forms, property indexes created midway); the read-back must equal a model of the operations, then all queries are judged on the read-back graph as in part 1; distinct by graph + operation list, non-trivial if additionally the history removed a node or an edge.",
         assumptions: vec![
             "paths, traversals and SCC respect edge direction (an undirected edge is usable both ways); k-core, triangles, clustering, articulation points, bridges, blocks and MST are judged on the underlying simple undirected graph with the .undirected() switch where the config has one".into(),
             "node filters: only queries whose two endpoints satisfy the filter are judged, so that whether endpoints are exempt is not part of the verdict; traverse is only judged with edge-type / edge-property filters (whether a node filter prunes or only hides is not stated)".into(),
@@ -1917,10 +2425,10 @@ fn main() {
             "A* is run with its default zero heuristic only; weights are never negative or NaN; weighted totals are compared with relative tolerance 1e-9".into(),
             "find_all_weighted_paths: optimal total and validity/minimality of every listed path are judged, completeness of the list is not (float ties); on graphs with a zero-weight edge it runs in a child process (address-space limit 1.5 GB, 30 s): abnormal end = violation, timeout = inconclusive".into(),
             "a node is never judged to be (or not to be) its own neighbour".into(),
+            "history part: 'the current graph' is the graph listed by all_nodes() / all_edges() after the operations, and it is only judged when that listing equals the model of the applied operations (all of which must have returned Ok); queries only name nodes that exist in it; an error other than PathNotFound from a path query between existing nodes is a violation (EdgeNotFound / NodeNotFound naming an id absent from the current graph gets its own signature)".into(),
             "pattern matching: a variable-length segment is node-simple including its start node (the code's stated rule: skip visited nodes to prevent cycles), segments of one pattern do not share that rule, node patterns apply to named positions only; matches are compared as sets of bound tuples with an explicit limit of 1e6 (match_simple only when fewer than 900 matches are expected; truncated results are skipped), so neither duplicates nor limit handling are judged; parallel edges give different paths, as in find_variable_paths".into(),
         ],
-        floors: vec![("graphs", 300), ("reachable_pairs", 2_000), ("pairs_at_distance_ge_2", 500), ("q_find_variable_paths", 300), ("q_scc", 300), ("graphs_with_parallel_edges", 50), ("graphs_with_undirected_edges", 50),
-            ("q_match_pattern", 1_500), ("q_match_var_maxhops_ge2", 500), ("q_match_three_node_patterns", 200), ("q_match_pattern_parallel_scan", 100), ("match_paths_checked", 20_000), ("graphs_with_triangles", 100)],
+        floors,
         exhaustive: false,
     };
     write_result(&args, &meta, &total, started);
